@@ -1,18 +1,123 @@
 package main
 
-// Acts of SALife.tla: IKE SA key derivation, Child SA derivation, Diffie-Hellman, transform mapping.
+// Acts of SALife.tla / CipherObj.tla / Transforms.tla: IKE SA key derivation, Child SA derivation, Diffie-Hellman,
+// random numbers under a replaceable random source, the AES-CBC transform, algorithm <-> transform mapping.
 
 import (
+	"crypto/rand"
+	"errors"
+	"fmt"
+	"hash"
+	"math/big"
+
+	"github.com/free5gc/ike/message"
 	"github.com/free5gc/ike/security"
+	ikeCrypto "github.com/free5gc/ike/security/IKECrypto"
+	"github.com/free5gc/ike/security/dh"
 	"github.com/free5gc/ike/security/encr"
+	"github.com/free5gc/ike/security/esn"
 	"github.com/free5gc/ike/security/integ"
+	"github.com/free5gc/ike/security/prf"
 )
 
 func init() {
 	acts["derive_child"] = actDeriveChild
+	acts["ike_derive"] = actIkeDerive
+	acts["new_ike_sa"] = actNewIkeSA
+	acts["sa_probe"] = actSaProbe
+	acts["dh_pub"] = actDhPub
+	acts["dh_shared"] = actDhShared
+	acts["dh_calc"] = actDhCalc
+	acts["gen_random"] = actGenRandom
+	acts["cipher_new"] = actCipherNew
+	acts["cipher_encrypt"] = actCipherEncrypt
+	acts["cipher_decrypt"] = actCipherDecrypt
+	acts["alg_to_transform"] = actAlgToTransform
+	acts["transform_to_alg"] = actTransformToAlg
+	acts["proposal_roundtrip"] = actProposalRoundtrip
+	for _, a := range []string{"new_ike_sa", "dh_calc", "gen_random", "cipher_encrypt"} {
+		exclusiveActs[a] = true
+	}
 }
 
-// derive_child: GenerateKeyForChildSA on a fresh ChildSAKey from the (long-lived) IKE SA object `sa`
+// ---------------------------------------------------------------------------------------- random source
+
+// recReader is the replaceable random source: deterministic stream, optional failure at the k-th Read call,
+// and a record of everything it delivered.
+type recReader struct {
+	mode      string // det | fail | replay
+	seed      int
+	failAt    int // Read call index (0-based) that fails; -1 never
+	stream    []byte
+	pos       int
+	reads     int
+	delivered []byte
+}
+
+func (r *recReader) Read(b []byte) (int, error) {
+	idx := r.reads
+	r.reads++
+	if r.failAt >= 0 && idx >= r.failAt {
+		return 0, errors.New("verif: random source failure")
+	}
+	for i := range b {
+		var v byte
+		switch r.mode {
+		case "replay":
+			if r.pos < len(r.stream) {
+				v = r.stream[r.pos]
+			}
+		case "zero":
+			v = 0
+		case "ff":
+			v = 0xff
+		default:
+			v = byte((r.seed*131 + r.pos*29 + (r.pos/7)*17 + 11) % 251)
+		}
+		r.pos++
+		b[i] = v
+	}
+	r.delivered = append(r.delivered, b...)
+	return len(b), nil
+}
+
+func readerOf(spec J) *recReader {
+	if spec == nil || gs(spec, "mode") == "" || gs(spec, "mode") == "system" {
+		return nil
+	}
+	r := &recReader{mode: gs(spec, "mode"), seed: gi(spec, "seed"), failAt: -1}
+	if _, has := spec["failat"]; has {
+		r.failAt = gi(spec, "failat")
+	}
+	if r.mode == "replay" {
+		r.stream = gox(spec, "stream")
+	}
+	return r
+}
+
+// withReader runs f with crypto/rand.Reader replaced by r (nil: untouched); callers hold randMu exclusively.
+func withReader(r *recReader, f func()) {
+	if r == nil {
+		f()
+		return
+	}
+	old := rand.Reader
+	rand.Reader = r
+	defer func() { rand.Reader = old }()
+	f()
+}
+
+func randObs(r *recReader, o J) {
+	if r != nil {
+		o["failseen"] = r.failAt >= 0 && r.reads > r.failAt
+		o["reads"] = r.reads
+		o["delivered"] = octOf(r.delivered)
+		o["ndelivered"] = len(r.delivered)
+	}
+}
+
+// ---------------------------------------------------------------------------------------- Child SA
+
 func actDeriveChild(e *Env, a J) J {
 	o := getSA(e, a)
 	if o == nil {
@@ -36,6 +141,578 @@ func actDeriveChild(e *Env, a J) J {
 		obs["ai"] = octOf(c.InitiatorToResponderIntegrityKey)
 		obs["er"] = octOf(c.ResponderToInitiatorEncryptionKey)
 		obs["ar"] = octOf(c.ResponderToInitiatorIntegrityKey)
+	}
+	return obs
+}
+
+// ---------------------------------------------------------------------------------------- IKE SA keys
+
+func hashProbe(h hash.Hash, probe []byte) Oct {
+	if h == nil {
+		return nil
+	}
+	h.Reset()
+	h.Write(probe)
+	return h.Sum(nil)
+}
+
+func keyObs(k *security.IKESAKey, a J, obs J) {
+	obs["sk_d"], obs["sk_ai"], obs["sk_ar"] = octOf(k.SK_d), octOf(k.SK_ai), octOf(k.SK_ar)
+	obs["sk_ei"], obs["sk_er"], obs["sk_pi"], obs["sk_pr"] = octOf(k.SK_ei), octOf(k.SK_er), octOf(k.SK_pi), octOf(k.SK_pr)
+	if p, has := a["probe"]; has {
+		probe, _ := anyToOct(p)
+		obs["p_prf_d"] = hashProbe(k.Prf_d, probe)
+		obs["p_integ_i"] = hashProbe(k.Integ_i, probe)
+		obs["p_integ_r"] = hashProbe(k.Integ_r, probe)
+		obs["p_prf_i"] = hashProbe(k.Prf_i, probe)
+		obs["p_prf_r"] = hashProbe(k.Prf_r, probe)
+	}
+	dec := func(c ikeCrypto.IKECrypto, key string) {
+		if ct, has := a[key]; has && c != nil {
+			b, _ := anyToOct(ct)
+			pt, err := c.Decrypt(b)
+			if err == nil {
+				obs["p_"+key] = octOf(pt)
+			} else {
+				obs["p_"+key] = "error"
+			}
+		}
+	}
+	dec(k.Encr_i, "ct_i")
+	dec(k.Encr_r, "ct_r")
+}
+
+// sa_probe: what the ready-to-use objects of an SA compute on probe inputs (C07: "keyed with exactly those keys")
+func actSaProbe(e *Env, a J) J {
+	o := getSA(e, a)
+	if o == nil {
+		return J{"infra": "sa_probe: unknown SA"}
+	}
+	obs := J{}
+	keyObs(o.key, a, obs)
+	return obs
+}
+
+func infosFromNames(k *security.IKESAKey, suite J, grp int) {
+	k.EncrInfo = encr.StrToType(encrNames[gi(suite, "encr")])
+	k.IntegInfo = integ.StrToType(integNames[gs(suite, "integ")])
+	k.PrfInfo = prf.StrToType(prfNames[gs(suite, "prf")])
+	k.DhInfo = dh.StrToType(dhNames[grp])
+}
+
+func registerSA(e *Env, name string, k *security.IKESAKey, suite J) {
+	if name == "" {
+		return
+	}
+	keys := J{"sk_d": octOf(k.SK_d), "sk_ai": octOf(k.SK_ai), "sk_ar": octOf(k.SK_ar), "sk_ei": octOf(k.SK_ei), "sk_er": octOf(k.SK_er),
+		"sk_pi": octOf(k.SK_pi), "sk_pr": octOf(k.SK_pr)}
+	o := &saObj{key: k, log: &spyLog{}, keys: keys, suite: suite}
+	k.Integ_i = &spyHash{k.Integ_i, o.log, "integ_i"}
+	k.Integ_r = &spyHash{k.Integ_r, o.log, "integ_r"}
+	k.Prf_d = &spyHash{k.Prf_d, o.log, "prf_d"}
+	k.Encr_i = &spyCrypto{k.Encr_i, o.log, "encr_i"}
+	k.Encr_r = &spyCrypto{k.Encr_r, o.log, "encr_r"}
+	e.objs["sa:"+name] = o
+}
+
+func actIkeDerive(e *Env, a J) J {
+	suite := gj(a, "suite")
+	k := new(security.IKESAKey)
+	infosFromNames(k, suite, gi(a, "grp"))
+	if k.EncrInfo == nil || k.IntegInfo == nil || k.PrfInfo == nil || k.DhInfo == nil {
+		return J{"infra": "ike_derive: algorithm not registered"}
+	}
+	if gs(a, "via") == "transform" { // through the SA's own proposal: algorithms -> transforms -> algorithms
+		p, err := k.ToProposal()
+		if err != nil {
+			return J{"err": true, "errmsg": err.Error()}
+		}
+		k2 := new(security.IKESAKey)
+		k2.EncrInfo = encr.DecodeTransform(p.EncryptionAlgorithm[0])
+		k2.IntegInfo = integ.DecodeTransform(p.IntegrityAlgorithm[0])
+		k2.PrfInfo = prf.DecodeTransform(p.PseudorandomFunction[0])
+		k2.DhInfo = dh.DecodeTransform(p.DiffieHellmanGroup[0])
+		k = k2
+	}
+	err := k.GenerateKeyForIKESA(nilIfEmpty(gox(a, "nonce")), nilIfEmpty(gox(a, "secret")), u64of(gox(a, "spii")), u64of(gox(a, "spir")))
+	obs := errObs(err)
+	if err == nil {
+		keyObs(k, a, obs)
+		registerSA(e, gs(a, "name"), k, suite)
+	}
+	return obs
+}
+
+func actNewIkeSA(e *Env, a J) J {
+	pj := gj(a, "prop")
+	pl, err := buildPayload(J{"k": "SA", "props": []any{pj}})
+	if err != nil {
+		return J{"infra": "new_ike_sa: " + err.Error()}
+	}
+	prop := pl.(*message.SecurityAssociation).Proposals[0]
+	if gb(a, "wire") { // the proposal as a peer would receive it
+		b, err := pl.Marshal()
+		if err != nil {
+			return J{"infra": "new_ike_sa marshal: " + err.Error()}
+		}
+		sa2 := new(message.SecurityAssociation)
+		if err := sa2.Unmarshal(b); err != nil {
+			return J{"infra": "new_ike_sa unmarshal: " + err.Error()}
+		}
+		prop = sa2.Proposals[0]
+	}
+	r := readerOf(gj(a, "rand"))
+	var k *security.IKESAKey
+	var pub []byte
+	withReader(r, func() {
+		k, pub, err = security.NewIKESAKey(prop, nilIfEmpty(gox(a, "peer")), nilIfEmpty(gox(a, "nonce")), u64of(gox(a, "spii")), u64of(gox(a, "spir")))
+	})
+	obs := errObs(err)
+	randObs(r, obs)
+	obs["haskey"] = k != nil
+	obs["haspub"] = pub != nil
+	// a failure delivered by the random source must surface as an error and no key (C09)
+	obs["faultok"] = r == nil || !(r.failAt >= 0 && r.reads > r.failAt) || (err != nil && k == nil && pub == nil)
+	if err == nil && k != nil {
+		obs["pub"] = octOf(pub)
+		keyObs(k, a, obs)
+		registerSA(e, gs(a, "name"), k, gj(a, "suite"))
+	}
+	return obs
+}
+
+// ---------------------------------------------------------------------------------------- Diffie-Hellman, random numbers
+
+func actDhPub(e *Env, a J) J {
+	t := dh.StrToType(dhNames[gi(a, "grp")])
+	if t == nil {
+		return J{"infra": "dh group"}
+	}
+	return J{"pub": octOf(t.GetPublicValue(new(big.Int).SetBytes(gox(a, "x"))))}
+}
+
+func actDhShared(e *Env, a J) J {
+	t := dh.StrToType(dhNames[gi(a, "grp")])
+	if t == nil {
+		return J{"infra": "dh group"}
+	}
+	return J{"shared": octOf(t.GetSharedKey(new(big.Int).SetBytes(gox(a, "x")), new(big.Int).SetBytes(gox(a, "peer"))))}
+}
+
+func actDhCalc(e *Env, a J) J {
+	k := new(security.IKESAKey)
+	k.DhInfo = dh.StrToType(dhNames[gi(a, "grp")])
+	r := readerOf(gj(a, "rand"))
+	var pub, shared []byte
+	var err error
+	withReader(r, func() { pub, shared, err = security.CalculateDiffieHellmanMaterials(k, gox(a, "peer")) })
+	obs := errObs(err)
+	randObs(r, obs)
+	obs["haspub"] = pub != nil
+	obs["faultok"] = r == nil || !(r.failAt >= 0 && r.reads > r.failAt) || (err != nil && pub == nil && shared == nil)
+	if err == nil {
+		obs["pub"] = octOf(pub)
+		obs["shared"] = octOf(shared)
+	}
+	return obs
+}
+
+func actGenRandom(e *Env, a J) J {
+	r := readerOf(gj(a, "rand"))
+	n := gi(a, "n")
+	if n <= 0 {
+		n = 1
+	}
+	var nums []any
+	var err error
+	distinct := map[string]bool{}
+	inRange := true
+	lo := new(big.Int).Lsh(big.NewInt(1), 128)
+	hi := new(big.Int).Lsh(big.NewInt(1), 2048)
+	withReader(r, func() {
+		for i := 0; i < n && err == nil; i++ {
+			var x *big.Int
+			x, err = security.GenerateRandomNumber()
+			if err == nil {
+				if x.Cmp(lo) < 0 || x.Cmp(hi) >= 0 {
+					inRange = false
+				}
+				distinct[x.String()] = true
+				if len(nums) < 4 {
+					b := x.Bytes()
+					nums = append(nums, Oct(append(make([]byte, 256-len(b)), b...)))
+				}
+			}
+		}
+	})
+	obs := errObs(err)
+	randObs(r, obs)
+	obs["hasnum"] = err == nil
+	obs["faultok"] = r == nil || !(r.failAt >= 0 && r.reads > r.failAt) || err != nil
+	if err == nil {
+		obs["num"] = nums[0]
+		obs["inrange"] = inRange
+		obs["distinct"] = len(distinct)
+	}
+	return obs
+}
+
+// ---------------------------------------------------------------------------------------- AES-CBC transform
+
+func actCipherNew(e *Env, a J) J {
+	t := encr.StrToType(encrNames[gi(a, "bits")])
+	if t == nil {
+		return J{"infra": "cipher_new bits"}
+	}
+	c, err := t.NewCrypto(gox(a, "key"))
+	obs := errObs(err)
+	obs["hasobj"] = c != nil && err == nil
+	if err == nil {
+		e.objs["cipher:"+gs(a, "name")] = c
+	}
+	return obs
+}
+
+func actCipherEncrypt(e *Env, a J) J {
+	c, _ := e.objs["cipher:"+gs(a, "obj")].(ikeCrypto.IKECrypto)
+	if c == nil {
+		return J{"infra": "cipher_encrypt: no object"}
+	}
+	r := readerOf(gj(a, "rand"))
+	pt := octOf(gox(a, "pt"))
+	ptCopy := octOf(pt)
+	var ct []byte
+	var err error
+	withReader(r, func() { ct, err = c.Encrypt(pt) })
+	obs := errObs(err)
+	randObs(r, obs)
+	obs["hasct"] = ct != nil
+	obs["ptsame"] = string(pt[:len(ptCopy)]) == string(ptCopy)
+	if err == nil {
+		obs["ct"] = octOf(ct)
+		obs["ctlen"] = len(ct)
+		if len(ct) >= 16 {
+			obs["iv"] = octOf(ct[:16])
+		}
+	}
+	return obs
+}
+
+func actCipherDecrypt(e *Env, a J) J {
+	c, _ := e.objs["cipher:"+gs(a, "obj")].(ikeCrypto.IKECrypto)
+	if c == nil {
+		return J{"infra": "cipher_decrypt: no object"}
+	}
+	return overLayouts(gox(a, "ct"), gb(a, "caps"), func(b []byte) J {
+		pt, err := c.Decrypt(b)
+		obs := errObs(err)
+		if err == nil {
+			obs["pt"] = octOf(pt)
+		}
+		return obs
+	})
+}
+
+// ---------------------------------------------------------------------------------------- algorithm <-> transform
+
+func algName(kind string, v any) (string, J) {
+	info := J{}
+	switch kind {
+	case "encr":
+		t, _ := v.(encr.ENCRType)
+		if t == nil {
+			return "unsupported", info
+		}
+		info["keylen"] = t.GetKeyLength()
+		for bits, n := range encrNames {
+			if encr.StrToType(n) == t {
+				return fmt.Sprintf("aes-cbc-%d", bits), info
+			}
+		}
+	case "encrk":
+		t, _ := v.(encr.ENCRKType)
+		if t == nil {
+			return "unsupported", info
+		}
+		info["keylen"] = t.GetKeyLength()
+		for bits, n := range encrNames {
+			if encr.StrToKType(n) == t {
+				return fmt.Sprintf("aes-cbc-%d", bits), info
+			}
+		}
+	case "integ":
+		t, _ := v.(integ.INTEGType)
+		if t == nil {
+			return "unsupported", info
+		}
+		info["keylen"] = t.GetKeyLength()
+		info["outlen"] = t.GetOutputLength()
+		for s, n := range integNames {
+			if integ.StrToType(n) == t {
+				return s, info
+			}
+		}
+	case "integk":
+		t, _ := v.(integ.INTEGKType)
+		if t == nil {
+			return "unsupported", info
+		}
+		info["keylen"] = t.GetKeyLength()
+		for s, n := range integNames {
+			if integ.StrToKType(n) == t {
+				return s, info
+			}
+		}
+	case "prf":
+		t, _ := v.(prf.PRFType)
+		if t == nil {
+			return "unsupported", info
+		}
+		info["keylen"] = t.GetKeyLength()
+		info["outlen"] = t.GetOutputLength()
+		for s, n := range prfNames {
+			if prf.StrToType(n) == t {
+				return s, info
+			}
+		}
+	case "dh":
+		t, _ := v.(dh.DHType)
+		if t == nil {
+			return "unsupported", info
+		}
+		for g, n := range dhNames {
+			if dh.StrToType(n) == t {
+				return fmt.Sprintf("modp-%d", g), info
+			}
+		}
+	}
+	return "unknown-object", info
+}
+
+func byName(kind, name string) any {
+	switch kind {
+	case "encr":
+		for bits, n := range encrNames {
+			if name == fmt.Sprintf("aes-cbc-%d", bits) {
+				return encr.StrToType(n)
+			}
+		}
+	case "encrk":
+		for bits, n := range encrNames {
+			if name == fmt.Sprintf("aes-cbc-%d", bits) {
+				return encr.StrToKType(n)
+			}
+		}
+	case "integ":
+		return integ.StrToType(integNames[name])
+	case "integk":
+		return integ.StrToKType(integNames[name])
+	case "prf":
+		return prf.StrToType(prfNames[name])
+	case "dh":
+		for g, n := range dhNames {
+			if name == fmt.Sprintf("modp-%d", g) {
+				return dh.StrToType(n)
+			}
+		}
+	}
+	return nil
+}
+
+func projOneTransform(t *message.Transform) J {
+	l := projTransforms(int(t.TransformType), message.TransformContainer{t}, nil)
+	return l[0].(J)
+}
+
+func actAlgToTransform(e *Env, a J) J {
+	kind, name := gs(a, "kind"), gs(a, "name")
+	var t *message.Transform
+	var err error
+	info := J{}
+	if kind == "esn" {
+		x, err2 := esn.StrToType(map[string]string{"esn-on": esn.String_ESN_ENABLE, "esn-off": esn.String_ESN_DISABLE}[name])
+		if err2 != nil {
+			return J{"err": true, "errmsg": err2.Error()}
+		}
+		t = esn.ToTransform(x)
+	} else {
+		v := byName(kind, name)
+		if v == nil {
+			return J{"err": true, "errmsg": "algorithm not advertised under that name"}
+		}
+		_, info = algName(kind, v)
+		switch kind {
+		case "encr":
+			t, err = encr.ToTransform(v.(encr.ENCRType))
+		case "encrk":
+			t, err = encr.ToTransformChildSA(v.(encr.ENCRKType))
+		case "integ":
+			t = integ.ToTransform(v.(integ.INTEGType))
+		case "integk":
+			t = integ.ToTransformChildSA(v.(integ.INTEGKType))
+		case "prf":
+			t = prf.ToTransform(v.(prf.PRFType))
+		case "dh":
+			t = dh.ToTransform(v.(dh.DHType))
+		}
+	}
+	obs := errObs(err)
+	if err == nil && t != nil {
+		obs["tr"] = projOneTransform(t)
+		for k, x := range info {
+			obs[k] = x
+		}
+	}
+	return obs
+}
+
+func actTransformToAlg(e *Env, a J) J {
+	kind := gs(a, "kind")
+	tj := gj(a, "tr")
+	t := buildTransform(tj)
+	if gb(a, "wire") {
+		c := gi(tj, "c")
+		if c == 0 {
+			c = gi(tj, "tt")
+		}
+		pj := J{"num": 1, "proto": 1, "spi": Oct{}, "tr": []any{tj}}
+		pl, err := buildPayload(J{"k": "SA", "props": []any{pj}})
+		if err != nil {
+			return J{"infra": err.Error()}
+		}
+		b, err := pl.Marshal()
+		if err != nil {
+			return J{"wireerr": true, "alg": "unsupported"}
+		}
+		sa2 := new(message.SecurityAssociation)
+		if err := sa2.Unmarshal(b); err != nil {
+			return J{"wireerr": true, "alg": "unsupported"}
+		}
+		p := sa2.Proposals[0]
+		all := [][]*message.Transform{p.EncryptionAlgorithm, p.PseudorandomFunction, p.IntegrityAlgorithm, p.DiffieHellmanGroup, p.ExtendedSequenceNumbers}
+		t = nil
+		for _, l := range all {
+			if len(l) > 0 {
+				t = l[0]
+			}
+		}
+		if t == nil {
+			return J{"wireerr": true, "alg": "unsupported"}
+		}
+	}
+	obs := J{}
+	switch kind {
+	case "encr":
+		n, info := algName(kind, encr.DecodeTransform(t))
+		obs["alg"] = n
+		copyInfo(obs, info)
+	case "encrk":
+		n, info := algName(kind, encr.DecodeTransformChildSA(t))
+		obs["alg"] = n
+		copyInfo(obs, info)
+	case "integ":
+		n, info := algName(kind, integ.DecodeTransform(t))
+		obs["alg"] = n
+		copyInfo(obs, info)
+	case "integk":
+		n, info := algName(kind, integ.DecodeTransformChildSA(t))
+		obs["alg"] = n
+		copyInfo(obs, info)
+	case "prf":
+		n, info := algName(kind, prf.DecodeTransform(t))
+		obs["alg"] = n
+		copyInfo(obs, info)
+	case "dh":
+		n, info := algName(kind, dh.DecodeTransform(t))
+		obs["alg"] = n
+		copyInfo(obs, info)
+	case "esn":
+		x, err := esn.DecodeTransform(t)
+		if err != nil {
+			obs["alg"] = "unsupported"
+		} else if x.GetNeedESN() {
+			obs["alg"] = "esn-on"
+		} else {
+			obs["alg"] = "esn-off"
+		}
+	default:
+		return J{"infra": "transform_to_alg kind " + kind}
+	}
+	return obs
+}
+
+func copyInfo(dst, src J) {
+	for k, v := range src {
+		dst[k] = v
+	}
+}
+
+// proposal_roundtrip: a single-choice proposal (D-form) is handed to NewIKESAKey (kind "ike") or NewChildSAKeyByProposal
+// (kind "child"); the algorithms of the resulting SA and the proposal it re-advertises are observed.
+func actProposalRoundtrip(e *Env, a J) J {
+	pj := gj(a, "prop")
+	pl, err := buildPayload(J{"k": "SA", "props": []any{pj}})
+	if err != nil {
+		return J{"infra": err.Error()}
+	}
+	prop := pl.(*message.SecurityAssociation).Proposals[0]
+	if gb(a, "wire") {
+		b, err := pl.Marshal()
+		if err != nil {
+			return J{"infra": "marshal: " + err.Error()}
+		}
+		sa2 := new(message.SecurityAssociation)
+		if err := sa2.Unmarshal(b); err != nil {
+			return J{"infra": "unmarshal: " + err.Error()}
+		}
+		prop = sa2.Proposals[0]
+	}
+	obs := J{}
+	var back *message.Proposal
+	if gs(a, "kind") == "ike" {
+		var k *security.IKESAKey
+		k, _, err = security.NewIKESAKey(prop, fillPattern("seeded", 256, 3), fillPattern("seeded", 32, 4), 1, 2)
+		obs = errObs(err)
+		if err == nil {
+			obs["encr"], _ = algName("encr", k.EncrInfo)
+			obs["integ"], _ = algName("integ", k.IntegInfo)
+			obs["prf"], _ = algName("prf", k.PrfInfo)
+			obs["dh"], _ = algName("dh", k.DhInfo)
+			back, err = k.ToProposal()
+		}
+	} else {
+		var c *security.ChildSAKey
+		c, err = security.NewChildSAKeyByProposal(prop)
+		obs = errObs(err)
+		if err == nil {
+			obs["encr"], _ = algName("encrk", c.EncrKInfo)
+			if c.IntegKInfo != nil {
+				obs["integ"], _ = algName("integk", c.IntegKInfo)
+			} else {
+				obs["integ"] = "none"
+			}
+			if c.DhInfo != nil {
+				obs["dh"], _ = algName("dh", c.DhInfo)
+			} else {
+				obs["dh"] = "none"
+			}
+			if c.EsnInfo.GetNeedESN() {
+				obs["esn"] = "esn-on"
+			} else {
+				obs["esn"] = "esn-off"
+			}
+			back, err = c.ToProposal()
+		}
+	}
+	if err == nil && back != nil {
+		trs := []any{}
+		trs = projTransforms(1, back.EncryptionAlgorithm, trs)
+		trs = projTransforms(2, back.PseudorandomFunction, trs)
+		trs = projTransforms(3, back.IntegrityAlgorithm, trs)
+		trs = projTransforms(4, back.DiffieHellmanGroup, trs)
+		trs = projTransforms(5, back.ExtendedSequenceNumbers, trs)
+		obs["back"] = trs
+		obs["backproto"] = int(back.ProtocolID)
 	}
 	return obs
 }
